@@ -79,6 +79,12 @@ var c18Templates = []c18Template{
 		return "sum_over_time(" + a + " | logfmt | unwrap k [" + r + "]) by (container, level)"
 	}},
 	{name: "count_offset", metric: true, build: func(a, _, r string) string { return "count_over_time(" + a + "[" + r + "] offset 5s)" }},
+	{name: "max_of_unwrap", metric: true, build: func(a, _, r string) string {
+		return "max by (container_image) (max_over_time(" + a + " | logfmt | unwrap k [" + r + "]))"
+	}},
+	{name: "min_of_unwrap", metric: true, build: func(a, _, r string) string {
+		return "min by (container) (min_over_time(" + a + " | logfmt | unwrap k [" + r + "]))"
+	}},
 	{name: "rate", metric: true, build: func(a, _, r string) string { return "sum by (container) (count_over_time(" + a + " |~ \"r[0-5]\" [" + r + "]))" }},
 	metT("lit_vec", "100 - sum by (container) (count_over_time(", "))"),
 	metT("cmp", "sum by (container) (count_over_time(", ")) > 1"),
@@ -130,7 +136,9 @@ func (propC18) Gen(r *Rng, run uint64, tier string) *Plan {
 	}
 	switch x := r.Intn(100); {
 	case x < 5:
-		spec.NMin, spec.NMax, spec.RecMax = 8, 20, 5
+		spec.NMin, spec.NMax, spec.RecMax = 8, 24, 5
+	case x < 6:
+		spec.NMin, spec.NMax, spec.RecMax = 30, 70, 2
 	case x < 10:
 		spec.RecMax = 80
 	}
